@@ -87,7 +87,7 @@ def mixed_evaluator_results(model: SrcModel):
                             jobs.append((text, rc, sub, order))
         chunks = [jobs[i::32] for i in range(32)]
         res = []
-        with ProcessPoolExecutor(max_workers=min(16, os.cpu_count() or 4)) as ex:
+        with ProcessPoolExecutor(max_workers=int(os.environ.get("VSTAT_WORKERS") or min(16, os.cpu_count() or 4))) as ex:
             for part in ex.map(_mixed_eval_worker, [(str(model.repo), tuple(sorted(model.overlay.items())), c) for c in chunks if c]):
                 res.extend(part)
         return [[t, rc, ak, o, list(out) if isinstance(out, tuple) else out] for t, rc, ak, o, out in res]
